@@ -1147,6 +1147,7 @@ func main() {
 		"dgamma: all 60 x 31 cells of (alpha on a log grid over [0.01,100]) x (2..32 categories), then random shapes incl. 1 +- ulp: k finite rates >= -1e-12, non-decreasing (1e-9), mean 1 (1e-9), equal to Yang's category means (or normalised medians) computed from the series within 1e-7 k, deterministic",
 		"incgamma: shape a in [0.01,101] x 64 increasing x in [0,500] (uniform, around x=a, around x=1, log grid from 1e-300, random): value in [0,1], non-decreasing (1e-7), equal to the series sum_n e^-x x^(a+n)/Gamma(a+n+1) within 1e-6, 0 at x=0; both algorithm branches and their switch points counted",
 		"rates: GenerateRates in discrete (rate == DiscreteGamma[category], category in range, every category drawn over >= 50k sites, replay), homogeneous (all 1) and continuous (finite >= 0) modes",
+		"concurrent (-race build): 2..8 goroutines, each recomputing its own 3 (shape, category count) cells 10 rounds with DiscreteGamma, IncompleteGamma and GenerateRates at GOMAXPROCS 1..16: no race report, valid categories, bit-identical to the same calls made alone",
 		"every case is non-trivial (a draw, a parameter cell or an x sequence); distinct = (sub-check, parameters, seed)", cliRule}, ";; "))
 	mon.SetNote("assumptions", strings.Join([]string{
 		"trusted base: math.Lgamma/Exp/Log (series oracle, bisection quantile of the category cut points) and, for the support tests only, gonum's Gamma/Beta CDF; gonum's incomplete gamma is cross-checked against the harness series at every evaluated point (sig harness:series-oracle); gonum's gamma QUANTILE is not used by the oracle (it is inaccurate for shapes near 0.01, which only moves goalign's lowest categories by < 1e-59)",
@@ -1193,6 +1194,7 @@ func main() {
 	mon.Floor("op:GenerateRates:homogeneous", 100)
 	mon.Floor("op:GenerateRates:continuous", 100)
 	mon.Floor("GenerateRates:all-categories-expected", 100)
+	mon.Floor("concurrent:DiscreteGamma-calls", 4000)
 	cliFloors()
 	mon.Main("C20", []mon.Sub{
 		{Name: "witness", Quick: len(witnesses), Thorough: len(witnesses), Run: runWitness},
@@ -1203,6 +1205,7 @@ func main() {
 		{Name: "incgamma", Quick: 40000, Thorough: 800000, Run: runIncGamma},
 		{Name: "incgamma-tail", Quick: len(tailXs) * len(tailAs), Thorough: len(tailXs) * len(tailAs), Run: runIncGammaTail},
 		{Name: "rates", Quick: 12000, Thorough: 250000, Run: runRates},
+		{Name: "concurrent", Quick: 96, Thorough: 2400, Race: true, Run: runConcurrent},
 		{Name: "cli", Quick: 160, Thorough: 1600, Serial: true, Run: runCli},
 	})
 }
